@@ -13,7 +13,7 @@ VERIF="$(pwd)"
 REPO="${REPO_DIR:-/repo}"
 export GOFLAGS=-mod=mod GOPROXY=off GOTOOLCHAIN=auto
 unset GOSUMDB
-PROPS="${*:-$(python3 -c "import json;print(' '.join(p['id'] for p in json.load(open('MANIFEST.json'))['properties']))")}"
+PROPS="${*:-$(python3 -c "import json;print(' '.join(p['property_id'] for p in json.load(open('MANIFEST.json'))['checks']))")}"
 SCRATCH="$(mktemp -d "${TMPDIR:-/tmp}/verif-cov-XXXXXX")" || exit 2
 trap 'rm -rf "$SCRATCH"' EXIT
 go build -o "$SCRATCH/instr" ./instr || exit 2
